@@ -7,4 +7,7 @@ CONSTANTS
   ClChk = FALSE
   Threaded = TRUE
   FinalValid = TRUE
+  QCap = 0
+  Gating = FALSE
+  QfRet = TRUE
 CHECK_DEADLOCK FALSE
